@@ -15,7 +15,9 @@ flat declaration is computed the way the property says:
          like any other, as in the flat declaration);
   R10.c  middleware order (= R03.d), resource precedence at bind and request time (= R02.c), built-in
          _application is the outermost binding application; the chain a bound route executes is compiled at that
-         binding from the merged list (never taken over from the route being re-bound);
+         binding from the merged list (never taken over from the route being re-bound); every ``.slash_mode`` that
+         Application.dispatch reads (directly or through a local it hoisted) is that of the route it is handling -- the
+         mode its pattern was compiled for -- never the application's (they differ under inherit_slashes=False);
   R10.d  error handling comes from the application being bound into: the value that ends up in
          self.render_error is app.error_handler's when rebind_render_error (default True, no caller switches it
          off) and the route's otherwise; it is checked against the merged resources; dispatch consults
@@ -23,7 +25,10 @@ flat declaration is computed the way the property says:
   R10.e  renderer stickiness plumbing: rebind_render flows SubApplication.__init__ (default False) -> add
          -> bind_all -> BoundRoute.__init__ under one keyword; explicit callable renders win; the render
          factory is that of the most recently bound application able to provide one; every bind keyword a
-         caller writes is popped by BoundRoute.__init__.
+         caller writes is popped by BoundRoute.__init__; the stand-in stored when no factory has interpreted a
+         non-callable render argument is the marker the next binding tests for (``route.render is _noop_render``): a
+         value a private helper computes is followed through its returns -- a function object it creates per call is
+         not that marker (writer / reader agreement on the sentinel).
 Declined: the equivalence itself; render_factory selection as a value computation.
 
 Values are recognised by role, not by the local that carries them: ``effects.Flow`` (reaching definitions on the
@@ -63,7 +68,7 @@ def _deref(fl, expr, at):
     return expr, at
 
 
-def _require_followed(repo, fi, leaves, what):
+def _require_followed(repo, fi, leaves, what, made=None):
     """A value handed out by a helper of the analysed package that the front-end could not dissolve into the caller
     cannot be judged here: analysis gap, not a violation."""
     from ..effects import callee_of
@@ -72,7 +77,22 @@ def _require_followed(repo, fi, leaves, what):
         if isinstance(v, ast.Call):
             callee = callee_of(repo, fi, v)
             if callee is not None and callee.name.startswith('_'):
+                if made is not None and _returns_own_function(callee):
+                    made[id(l)] = callee        # followed: a function object the helper creates per call
+                    continue
                 raise AnalysisError('%s: %s is computed by %s, which could not be followed' % (fi.qualname, what, callee.qualname))
+
+
+def _returns_own_function(callee):
+    """Every ``return`` of the helper hands out a function it defines itself (a nested ``def`` / a lambda): a new function
+    object per call -- whatever else it is, it is not any module-level function a caller could compare it with."""
+    if isinstance(callee.node, ast.Lambda) or any(isinstance(n, (ast.Yield, ast.YieldFrom)) for n in walk_body(callee.node)):
+        return False
+    nested = set(n.name for n in callee.node.body if isinstance(n, (ast.FunctionDef, ast.AsyncFunctionDef)))
+    stored = set(n.id for n in walk_body(callee.node) if isinstance(n, ast.Name) and isinstance(n.ctx, ast.Store))
+    rets = [r for r in returns_of(callee)]
+    return bool(rets) and all(r.value is not None and (isinstance(r.value, ast.Lambda) or
+                              (isinstance(r.value, ast.Name) and r.value.id in nested and r.value.id not in stored)) for r in rets)
 
 
 def _kwarg_name(fi):
@@ -1227,6 +1247,30 @@ def _r10b_pattern_derived(rep, repo, route):
 
 
 # ------------------------------------------------------------------------------------------------ R10.c (own part)
+def _r10c_dispatch_mode_of_the_route(rep, app):
+    """R10.c: the slash decision in Application.dispatch (redirect / strict 404 / rewrite) is made with the mode of the
+    *route* being handled -- the mode its pattern was compiled for at bind time.  A bound route carries its own mode (that of
+    the application it was bound into, or with inherit_slashes=False the one it had), so routes of one routing table can
+    differ: every ``.slash_mode`` dispatch reads, directly or through a local it hoisted, is read off the loop's route --
+    never off the application (or anything else that is the same for every route)."""
+    from .dispatch import DispatchView
+    dv = DispatchView(rep.repo)
+    d = dv.fi
+    fl = Flow(d)
+    own = set(n.id for n in ast.walk(dv.loop.target) if isinstance(n, ast.Name)) | {dv.route_var}
+    for n in walk_body(d.node):
+        if not (isinstance(n, ast.Attribute) and n.attr == 'slash_mode' and isinstance(n.ctx, ast.Load)):
+            continue
+        st = stmt_of(app, n)
+        recv = fl.text(n.value, st) if st is not None else norm(n.value)
+        ok = recv in own
+        rep.check('R10.c', fkey(d, 'slash mode read: %s' % norm(n)[:50]), ok, 'dispatch reads the slash mode of the route it is handling' if ok else
+                  'dispatch decides the slash handling of a route with %s.slash_mode instead of the mode of the route it is handling (the one '
+                  'its pattern was compiled for): a route embedded with inherit_slashes=False, whose mode differs from the application\'s, '
+                  'is redirected / refused / rewritten by the wrong rule -- not what the flat declaration of the same route does' % recv,
+                  app, n)
+
+
 def _r10c_chain_compiled_here(rep, route):
     """The chain a bound route executes is compiled at this binding from the middleware list merged at this binding: every
     value that can reach ``self._execute`` is ``make_middleware_chain(<self.middlewares>, ..)``.  A chain taken over from
@@ -1515,7 +1559,8 @@ def _r10e_render(rep, app, route):
     if flags.default_is('rebind_render', True) is None:
         raise AnalysisError("BoundRoute.__init__: no read of the bind keyword 'rebind_render' recognised")
     lv = fl.leaves(_expr('self.render'), 'exit')
-    _require_followed(rep.repo, bi, lv, 'self.render')
+    made = {}      # leaves that are a function object a private helper creates (followed through its returns)
+    _require_followed(rep.repo, bi, lv, 'self.render', made)
     explicit = ('a', 'callable(%s)' % ur_render)
     prev_callable = ('a', 'callable(%s)' % prev_render)
     # re-binding applies when requested, or when nothing callable was bound yet
@@ -1540,7 +1585,12 @@ def _r10e_render(rep, app, route):
                   'the render-factory branch is not conditioned on bind_render', route, fac[0].stmt if fac else bi.node)
         ok = bool(keep) and bool(noop) and not others and all(pr.implies(P[id(l)], prev_callable) for l in keep) and \
             all(pr.implies(P[id(l)], ('n', prev_callable)) for l in noop)
+        standin = [l for l in others if id(l) in made]
         rep.check('R10.e', fkey(bi, 'carry-through branch'), ok, 'otherwise the previously bound renderer is carried through' if ok else
+                  ('when no factory has interpreted the render argument yet the binding stores %s, a function %s creates per call, but the next '
+                   'binding recognises that situation by the marker "%s is _noop_render" (and by a non-callable render): writer and reader of '
+                   'the sentinel disagree, so an application embedded later never gets its render factory applied to these routes -- the flat '
+                   'declaration of the same routes does' % (short(standin[0].value, 40), made[id(standin[0])].qualname, prev_render)) if standin else
                   'the carry-through branch of render selection changed: %s' % [short(l.value, 40) for l in keep + noop + others], route,
                   (others or keep or noop or [None])[0].stmt if (others or keep or noop) and isinstance((others or keep or noop)[0].stmt, ast.AST) else bi.node)
         # ... and *whenever* it applies (and a factory / a render argument exist): on the carry-through paths, under the
@@ -1634,6 +1684,10 @@ def run(rep):
     rep_guard(request_layers)
     rep_guard(slash_plumbing)
     rep_guard(chain_compiled_here)
+
+    def dispatch_mode_of_the_route():
+        _r10c_dispatch_mode_of_the_route(rep, app)
+    rep_guard(dispatch_mode_of_the_route)
     rep_guard(rep.floor, 'R10.c', 25)
 
     # ---- R10.d -----------------------------------------------------------
